@@ -292,7 +292,10 @@ def run(prop: str, tier: str, only=None) -> Result:
         items += [("typed3", s) for s in gen.typed_specs(3, alphabet=("a", "b", "c"), kinds=("k1", "k2", "k3"))]
     items += [("flat", s) for s in _flat_specs(flat_w, flat_kinds)]
     items += _random_specs(n_rand, max_rand)
-    total = parallel(_chunk, items, prop, prop=prop)
+    n_hist = 3 if quick else 4
+    hst = [("history", s) for s in gen.history_specs(gen.typed_specs(n_hist, min_n=1))]
+    big = [("big", s) for s in gen.big_specs(seed() + 15, 9 if quick else 60, lo=18, hi=36, typed=True)]
+    total = parallel(_chunk, items + hst + big, prop, prop=prop)
     total.exhaustive = False
     total.bounds[
         "TypedNode.get_children/first_child/last_child/has_children(kind), get_siblings/first_sibling/last_sibling/prev_sibling/next_sibling/"
@@ -302,6 +305,7 @@ def run(prop: str, tier: str, only=None) -> Result:
         + ("" if quick else "; all typed forests with <= 3 nodes x {a,b,c} x kinds {k1,k2,k3}")
         + f"; one parent (tree or node) with 1..{flat_w} children, every kind pattern over {{{','.join(flat_kinds)}}}; "
         f"{n_rand} seeded random typed trees with 4..{max_rand} nodes and 3 kinds (VERIF_SEED={seed()}); every node and the system root, "
+        f"{len(big)} seeded larger typed trees with 18..36 nodes; {len(hst)} " + "histories: every tree of <= {n} nodes with all accessors evaluated once, then one of remove / remove(keep_children) / move_to / add / remove_children / sort_children / deep copy (native/hist.py), the checks run on the resulting tree".format(n=n_hist) + "; "
         "every present kind + absent kinds (incl. super- and substrings of present kinds) + ANY_KIND, any_kind off/on/default, add_self off/on"
     )
     return total
